@@ -154,6 +154,7 @@ def post_cbw(run, snap, res, args, kwargs):
     got = dict(zip(got_keys, res.data["log2"].values.astype(float)))
     chain = getattr(run._tls, "fix_chain", None)
     if chain is not None:
+        run.extra["center_by_window-calls-inside-do_fix"] += 1
         chain.append({"keys": keys, "in": dict(zip(keys, x)), "out": got, "cov": dict(zip(keys, cov)), "fraction": frac})
     wit = {"fraction": frac, "bins": keys[:60], "log2": x[:60], "covariate": cov[:60]}
     if len(cov) != n:
@@ -357,6 +358,14 @@ def post_fix(run, snap, res, args, kwargs):
             # both outcomes are accepted here: no correction at all, or the full chain as asked.
             expect = []
         if len(evs) != len(expect):
+            if not chain and expect:
+                # not one correction was seen during this call.  Either the corrections were skipped (a violation), or this tree no
+                # longer routes them through center_by_window at all (a refactoring): the shard decides at its end -- a tree on
+                # which the hook is on the path shows it in the other calls
+                run.__dict__.setdefault("_fix_deferred", []).append((f"{cname}: no rolling-median correction ran, options/columns ask for {expect}", wit))
+                last[cname] = "undecidable"
+                verdict_cls.append(f"{cname}:chain-not-observable")
+                continue
             return run.violate(mon, "wrong-set-of-corrections", f"{cname}: {len(evs)} rolling-median corrections ran, options/columns ask for {expect}", wit)
         prev = None
         sk = sorted(keys, key=lambda k: (chrom_key(k[0]), k[1], k[2]))
@@ -531,3 +540,16 @@ def attach_all(run, rt):
     rt.attach(FX, "get_edge_bias", name="fix.get_edge_bias", pre=pre_edge, post=post_edge)
     rt.attach(FX, "do_fix", name="fix.do_fix", pre=pre_fix, post=post_fix, on_exc=exc_fix, also=[(CM, "do_fix")])
     return traced
+
+
+def finalize(run):
+    """Settle the calls in which no correction at all was observed (see clause B)."""
+    mon = "fix.do_fix"
+    deferred = run.__dict__.pop("_fix_deferred", [])
+    if not deferred:
+        return
+    if run.extra.get("center_by_window-calls-inside-do_fix", 0) == 0:
+        run.extra["do_fix-calls-with-corrections-not-observable"] += len(deferred)      # the hook is off this tree's path: boundary clauses decided alone
+        return
+    for detail, wit in deferred:
+        run.violate(mon, "wrong-set-of-corrections", detail, wit)
